@@ -68,8 +68,188 @@ def inline_return_temps(tree):
     return tree
 
 
+# ------------------------------------------------------------------------------------------------ structure
+TERMINATORS = (ast.Return, ast.Raise, ast.Continue, ast.Break)
+
+
+def _negate(e):
+    """negation in normal form: comparisons flipped, De Morgan, double negation removed"""
+    if isinstance(e, ast.UnaryOp) and isinstance(e.op, ast.Not):
+        return e.operand
+    if isinstance(e, ast.BoolOp):
+        op = ast.Or() if isinstance(e.op, ast.And) else ast.And()
+        return ast.copy_location(ast.BoolOp(op=op, values=[_negate(v) for v in e.values]), e)
+    if isinstance(e, ast.Compare) and len(e.ops) == 1:
+        flip = {ast.Eq: ast.NotEq, ast.NotEq: ast.Eq, ast.In: ast.NotIn, ast.NotIn: ast.In, ast.Is: ast.IsNot, ast.IsNot: ast.Is,
+                ast.Lt: ast.GtE, ast.GtE: ast.Lt, ast.Gt: ast.LtE, ast.LtE: ast.Gt}
+        # ordering comparisons are NOT flipped (NaN / array semantics): keep `not (a < b)`
+        if type(e.ops[0]) in (ast.Eq, ast.NotEq, ast.In, ast.NotIn, ast.Is, ast.IsNot):
+            return ast.copy_location(ast.Compare(left=e.left, ops=[flip[type(e.ops[0])]()], comparators=e.comparators), e)
+    return ast.copy_location(ast.UnaryOp(op=ast.Not(), operand=e), e)
+
+
+class NNF(ast.NodeTransformer):
+    """`not (a or b)` -> `not a and not b`; `not a == b` -> `a != b`; `not x in y` -> `x not in y`; `not not x` -> `x` (in tests)"""
+    def visit_UnaryOp(self, n):
+        self.generic_visit(n)
+        if isinstance(n.op, ast.Not) and isinstance(n.operand, (ast.BoolOp, ast.UnaryOp)):
+            if isinstance(n.operand, ast.UnaryOp) and not isinstance(n.operand.op, ast.Not):
+                return n
+            return self.visit(_negate(n.operand)) if isinstance(n.operand, ast.BoolOp) else n.operand.operand
+        if isinstance(n.op, ast.Not) and isinstance(n.operand, ast.Compare) and len(n.operand.ops) == 1 and \
+                isinstance(n.operand.ops[0], (ast.Eq, ast.NotEq, ast.In, ast.NotIn, ast.Is, ast.IsNot)):
+            return _negate(n.operand)
+        return n
+
+
+def _terminates(stmts):
+    return bool(stmts) and isinstance(stmts[-1], TERMINATORS)
+
+
+def _blocks(root):
+    for node in ast.walk(root):
+        for fld in ('body', 'orelse', 'finalbody'):
+            blk = getattr(node, fld, None)
+            if isinstance(blk, list) and blk and isinstance(blk[0], ast.stmt):
+                yield node, fld, blk
+        if isinstance(node, ast.Try):
+            for h in node.handlers:
+                yield h, 'body', h.body
+
+
+def structure(tree):
+    """(1) `if c: ..terminator  else: B` -> `if c: ..terminator` ; B     (else after return / raise / continue / break is dropped)
+       (2) in tail position of a loop body: `if c: continue` ; REST  ->  `if not c: REST`   (guard clauses become nesting)
+       (3) `if p: (if q: S)` without else on either -> `if p and q: S`"""
+    def and_values(t):
+        return list(t.values) if isinstance(t, ast.BoolOp) and isinstance(t.op, ast.And) else [t]
+
+    def block(blk, loop_tail):
+        i = 0
+        while i < len(blk):
+            st = blk[i]
+            last = i == len(blk) - 1
+            if isinstance(st, ast.If):
+                if st.orelse and _terminates(st.body):                                   # (1)
+                    tail = st.orelse
+                    st.orelse = []
+                    blk[i + 1:i + 1] = tail
+                    last = i == len(blk) - 1
+                if loop_tail and not st.orelse and len(st.body) == 1 and isinstance(st.body[0], ast.Continue) and not last:   # (2)
+                    rest = blk[i + 1:]
+                    new = ast.copy_location(ast.If(test=_negate(st.test), body=rest, orelse=[]), st)
+                    del blk[i:]
+                    blk.append(new)
+                    st = new
+                    last = True
+                block(st.body, loop_tail and last)
+                if st.orelse:
+                    block(st.orelse, loop_tail and last)
+                while not st.orelse and len(st.body) == 1 and isinstance(st.body[0], ast.If) and not st.body[0].orelse:     # (3)
+                    inner = st.body[0]
+                    st.test = ast.copy_location(ast.BoolOp(op=ast.And(), values=and_values(st.test) + and_values(inner.test)), st.test)
+                    st.body = inner.body
+            elif isinstance(st, (ast.For, ast.While, ast.AsyncFor)):
+                block(st.body, True)
+                if st.orelse:
+                    block(st.orelse, False)
+            elif isinstance(st, (ast.With, ast.AsyncWith)):
+                block(st.body, False)
+            elif isinstance(st, ast.Try):
+                block(st.body, False)
+                for h in st.handlers:
+                    block(h.body, False)
+                block(st.orelse, False) if st.orelse else None
+                block(st.finalbody, False) if st.finalbody else None
+            elif isinstance(st, (ast.FunctionDef, ast.AsyncFunctionDef, ast.ClassDef)):
+                block(st.body, False)
+            i += 1
+    block(tree.body, False)
+    return tree
+
+
+def loops_to_comprehensions(tree):
+    """X = [] ; for T in IT: [if C:] X.append(E)   ->   X = [E for T in IT if C]      (X not used in IT / C / E, nothing between
+       the two statements mentions X);  D = {} ; for T in IT: [if C:] D[K] = V  ->  D = {K: V for T in IT if C}"""
+    def mentions(node, name):
+        return any(isinstance(x, ast.Name) and x.id == name for x in ast.walk(node))
+    for node, fld, blk in list(_blocks(tree)):
+        i = 0
+        while i < len(blk):
+            st = blk[i]
+            if isinstance(st, ast.Assign) and len(st.targets) == 1 and isinstance(st.targets[0], ast.Name) and (
+                    (isinstance(st.value, (ast.List, ast.Dict)) and not (st.value.elts if isinstance(st.value, ast.List) else st.value.keys)) or
+                    (isinstance(st.value, ast.Call) and isinstance(st.value.func, ast.Name) and st.value.func.id in ('list', 'dict') and
+                     not st.value.args and not st.value.keywords)):
+                x = st.targets[0].id
+                is_list = isinstance(st.value, ast.List) or (isinstance(st.value, ast.Call) and st.value.func.id == 'list')
+                j = i + 1
+                while j < len(blk) and not mentions(blk[j], x):
+                    j += 1
+                lp = blk[j] if j < len(blk) else None
+                if isinstance(lp, ast.For) and not lp.orelse and len(lp.body) == 1:
+                    b = lp.body[0]
+                    cond = None
+                    if isinstance(b, ast.If) and not b.orelse and len(b.body) == 1:
+                        cond, b = b.test, b.body[0]
+                    comp = None
+                    if is_list and isinstance(b, ast.Expr) and isinstance(b.value, ast.Call) and isinstance(b.value.func, ast.Attribute) and \
+                            b.value.func.attr == 'append' and isinstance(b.value.func.value, ast.Name) and b.value.func.value.id == x and \
+                            len(b.value.args) == 1 and not mentions(b.value.args[0], x):
+                        comp = ast.ListComp(elt=b.value.args[0], generators=[ast.comprehension(target=lp.target, iter=lp.iter,
+                                                                                                 ifs=[cond] if cond is not None else [], is_async=0)])
+                    elif (not is_list) and isinstance(b, ast.Assign) and len(b.targets) == 1 and isinstance(b.targets[0], ast.Subscript) and \
+                            isinstance(b.targets[0].value, ast.Name) and b.targets[0].value.id == x and not mentions(b.value, x) and \
+                            not mentions(b.targets[0].slice, x):
+                        comp = ast.DictComp(key=b.targets[0].slice, value=b.value,
+                                            generators=[ast.comprehension(target=lp.target, iter=lp.iter,
+                                                                          ifs=[cond] if cond is not None else [], is_async=0)])
+                    if comp is not None and not mentions(lp.iter, x) and not (cond is not None and mentions(cond, x)):
+                        new = ast.copy_location(ast.Assign(targets=[ast.Name(id=x, ctx=ast.Store())], value=ast.copy_location(comp, lp)), lp)
+                        new._from_loop = True
+                        blk[j] = new
+                        del blk[i]
+                        continue
+            i += 1
+    return tree
+
+
+def merge_dict_stores(tree):
+    """d = {..} ; d['k1'] = v1 ; d['k2'] = v2   ->   d = {.., 'k1': v1, 'k2': v2}   (constant keys, directly following stores whose
+    values do not read d)"""
+    for node, fld, blk in list(_blocks(tree)):
+        i = 0
+        while i < len(blk) - 1:
+            st = blk[i]
+            if isinstance(st, ast.Assign) and len(st.targets) == 1 and isinstance(st.targets[0], ast.Name) and isinstance(st.value, ast.Dict) and \
+                    all(k is not None for k in st.value.keys):
+                d = st.targets[0].id
+                j = i + 1
+                while j < len(blk):
+                    nx = blk[j]
+                    if isinstance(nx, ast.Assign) and len(nx.targets) == 1 and isinstance(nx.targets[0], ast.Subscript) and \
+                            isinstance(nx.targets[0].value, ast.Name) and nx.targets[0].value.id == d and \
+                            isinstance(nx.targets[0].slice, ast.Constant) and \
+                            not any(isinstance(x, ast.Name) and x.id == d for x in ast.walk(nx.value)) and \
+                            not any(isinstance(k, ast.Constant) and k.value == nx.targets[0].slice.value for k in st.value.keys):
+                        st.value.keys.append(nx.targets[0].slice)
+                        st.value.values.append(nx.value)
+                        del blk[j]
+                    else:
+                        break
+            i += 1
+    return tree
+
+
 def shape(tree):
-    return ast.fix_missing_locations(inline_return_temps(Shape().visit(tree)))
+    tree = NNF().visit(tree)
+    tree = Shape().visit(tree)
+    tree = structure(tree)
+    tree = Shape().visit(tree)           # the nesting step creates new `not` tests
+    tree = NNF().visit(tree)
+    tree = loops_to_comprehensions(tree)
+    tree = merge_dict_stores(tree)
+    return ast.fix_missing_locations(inline_return_temps(tree))
 
 
 def positional_calls(repo):
